@@ -1532,11 +1532,23 @@ func c18RunGetIP(t *testing.T, steps []c18GetIPStep) (obs []c18GetIPObs, ok bool
 					return
 				}
 				o := c18GetIPObs{At: time.Now().UnixNano()}
-				ip, err := f.GetIP(context.Background())
+				var ip net.IP
+				var err error
+				panicked := ""
+				func() {
+					defer func() {
+						if p := recover(); p != nil {
+							panicked = fmt.Sprint(p)
+						}
+					}()
+					ip, err = f.GetIP(context.Background())
+				}()
 				o.DoneAt = time.Now().UnixNano()
 				o.Attempts = len(tr.obs)
 				o.Result = "!"
-				if err == nil {
+				if panicked != "" {
+					o.Result = "panic:" + panicked // a request that collects the public IP crashed: neither result nor error
+				} else if err == nil {
 					o.Result = hex.EncodeToString(ip.To16())
 				}
 				obs = append(obs, o)
